@@ -47,6 +47,30 @@ fn reduced_sets(rng: &mut Rng, thorough: bool) -> Vec<(String, WasmFeatures)> {
     v
 }
 
+/// the leading u32 of every element segment (table index in the MVP, flag word later)
+fn elem_flags(wasm: &[u8]) -> Vec<u32> {
+    let mut v = vec![];
+    for p in wasmparser::Parser::new(0).parse_all(wasm) {
+        if let Ok(wasmparser::Payload::ElementSection(r)) = p {
+            for e in r {
+                if let Ok(e) = e {
+                    let mut x: u32 = 0;
+                    let mut shift = 0;
+                    for b in &wasm[e.range.start..e.range.end.min(e.range.start + 5)] {
+                        x |= ((*b & 0x7f) as u32) << shift;
+                        shift += 7;
+                        if *b < 0x80 {
+                            break;
+                        }
+                    }
+                    v.push(x);
+                }
+            }
+        }
+    }
+    v
+}
+
 fn valid_under(wasm: &[u8], f: WasmFeatures) -> bool {
     // some combinations are rejected by wasmparser itself (e.g. reference types without bulk memory);
     // a panic or error about the feature set counts as "not valid under it" for input and output alike
@@ -89,6 +113,17 @@ fn run_wasm(case: &str, wasm: &[u8], rng: &mut Rng, thorough: bool, stats: &mut 
                 || a.code.iter().any(|c| c.ops.iter().any(|o| o.is("MemoryInit") || o.is("DataDrop")));
             if !f.contains(WasmFeatures::BULK_MEMORY) && b.data_count.is_some() && a.data_count.is_none() && !input_uses_bulk_data {
                 fails.push(("C20:output-needs-bulk-memory-data-count-section".into(), format!("the input validates under feature set `{}` (no bulk-memory), has no data-count section, no passive data segment and no memory.init/data.drop; the output has a data-count section", name)));
+            }
+            // likewise the element-segment encodings: the leading u32 of a segment is the table index
+            // (0) in the MVP, a flag word 1..=3 with bulk-memory and 4..=7 with reference types; the
+            // reference validator reads all of them under any feature set
+            let fa = elem_flags(wasm);
+            let fb = elem_flags(&bytes);
+            let level = |x: u32| if x == 0 { 0 } else if x < 4 { 1 } else { 2 };
+            let la = fa.iter().map(|x| level(*x)).max().unwrap_or(0);
+            let lb = fb.iter().map(|x| level(*x)).max().unwrap_or(0);
+            if lb > la && ((lb == 1 && !f.contains(WasmFeatures::BULK_MEMORY)) || (lb == 2 && !f.contains(WasmFeatures::REFERENCE_TYPES))) {
+                fails.push(("C20:output-uses-newer-element-segment-encoding".into(), format!("the input validates under feature set `{}` and its element segments start with {:?}; the output's start with {:?} (1..=3 belong to bulk-memory, 4..=7 to reference-types)", name, fa, fb)));
             }
             if let Err(e) = decode::validate(&bytes, f) {
                 let key = if name.starts_with('-') { format!("C20:output-needs-{}", &name[1..]) } else { "C20:output-needs-more-than-input".to_string() };
